@@ -427,10 +427,10 @@ def run(check, mirror, tier):
     # evaluations - by other threads, with other inputs - may have left in the compiled table; lib/interior.py)
     from checks import C03 as _c03
     crate_me = MirCrate(mirror, ["model-evaluator", "feel"], overflow_checks=True, enum_crates=("common", "feel", "model"))
-    check.bounds.append("E: the evaluator build_decision_table_evaluator returns, 0..3 rules, 0..2 input entries, every hit policy; any interior-mutable field of the compiled table "
+    check.bounds.append("E: the evaluator build_decision_table_evaluator returns, 0..2 rules, 0..2 input entries, every hit policy; any interior-mutable field of the compiled table "
                         "holds an arbitrary value of its type")
     jobs = []
-    _c03.evaluation_job(check, mirror, rb, crate_me, jobs, U)
+    _c03.evaluation_job(check, mirror, rb, crate_me, jobs, U, nr_max=2)
     run_parallel(check, jobs)
 
     # ---------------------------------------------------------------- F: calls of user-defined functions touch no process-wide state
